@@ -111,6 +111,10 @@ def units(tier):
                  ('roll22', 'roll21'), ('split', 'ts_close_inc'), ('ts_close_exc', 'roll21'), ('group_by', 'group_by'),
                  ('roll31', 'roll23'), ('ts_inactive', 'split'), ('roll21', 'ts_active')]
     nin = len(INNERS)
+    if tier != 'quick':
+        # nestings of three lifetime creators
+        for pp in itertools.product(['group_by', 'roll21', 'roll22', 'split', 'ts_close_inc'], repeat=3):
+            out.append({'fam': 'two', 'parents': list(pp), 'inners': list(range(nin)), 'L': 3, 'tier': tier})
     for pp in pairs:
         for part in spaces.shard(list(range(nin)), 2 if tier == 'quick' else 4):
             out.append({'fam': 'two', 'parents': list(pp), 'inners': part, 'L': L - 1, 'tier': tier})
